@@ -82,6 +82,8 @@ def walk_refs(framer):
         for attr, ctx in lists:
             acc = []
             for act in getattr(frame, attr):
+                if isinstance(act.actor, acting.Marker):
+                    continue          # the mark-setting act the builder adds for an `is updated` / `is changed` need
                 visit(act, acc)
             for i, sh in enumerate(acc):
                 out.append((frame.name, ctx, i, sh))
@@ -294,8 +296,17 @@ def ref(kind, leaf, frame=None):
     return {"kind": kind, "leaf": leaf, "frame": frame}
 
 
+_PMARK = [0.0]
+
+
 def gen_need(rng, is_main, frames):
     r = rng.random()
+    if r < _PMARK[0]:
+        # `is updated` / `is changed` on a share the driver writes: the mark behind it belongs to this framer (this clone) alone,
+        # whatever tag other clones of the same moot carry.  (Only in cases without rear: a mark remembers the past, and the
+        # stand-in of a reared clone has a longer past than the clone.)
+        return {"mark": rng.choice(["updated", "changed"]), "ref": ref("abs", rng.choice(CSH)),
+                "inframe": rng.random() < 0.4}
     if r < 0.3:
         return {"ref": ref("abs", rng.choice(CSH)), "op": rng.choice(["==", "!=", ">=", "<"]), "val": rng.randint(0, 2)}
     if r < 0.45:
@@ -435,6 +446,11 @@ def gen_case(rng, opt=None):
         counter[0] += 1
         return counter[0]
 
+    opt = dict(opt)
+    _PMARK[0] = 0.0
+    if rng.random() < opt.get("p_marks", 0.3):
+        _PMARK[0] = 0.3
+        opt["p_rear"] = 0.0
     ticks = rng.randint(12, 22)
     nmoots = rng.randint(2, 4)
     mnames = ["m%s" % c for c in "abcd"[:nmoots]]
@@ -662,6 +678,8 @@ def ref_text(r, env):
 
 
 def need_text(n, env):
+    if "mark" in n:
+        return "%s is %s%s" % (ref_text(n["ref"], env), n["mark"], " in frame" if n.get("inframe") else "")
     if "clock" in n:
         return "%s %s %s" % (n["clock"], n["op"], lit(n["val"]))
     return "%s %s %s" % (ref_text(n["ref"], env), n["op"], lit(n["val"]))
